@@ -78,7 +78,7 @@ def enc_arr(a):
     for v in a.ravel():
         v = float(v)
         out.append("nan" if v != v else ("inf" if v == float("inf") else ("-inf" if v == float("-inf") else v)))
-    return {"dtype": "float64", "shape": list(a.shape), "data": out}
+    return {"dtype": str(a.dtype), "shape": list(a.shape), "data": out}
 
 
 def dec_arr(d):
@@ -294,6 +294,18 @@ NANOPS = ["nansum", "nanprod", "nanmin", "nanmax", "nanmean", "nanvar", "nanstd"
 LEAN_OPS = {"sum", "prod", "min", "max", "any", "all", "mean"}
 
 
+def _rtol(*xs):
+    return 2e-4 if any(np.asarray(x).dtype in (np.float32, np.float16, np.complex64) for x in xs) else 1e-9
+
+
+def _check_dtype(ctx, what, lazy, got, exp):
+    e = np.asarray(exp).dtype
+    if np.asarray(got).dtype != e:
+        ctx.fail(f"{what}: computed dtype differs from NumPy's", observed=str(np.asarray(got).dtype), expected=str(e))
+    elif lazy is not None and lazy.dtype != e:
+        ctx.fail(f"{what}: lazy dtype differs from the computed / NumPy dtype", observed=str(lazy.dtype), expected=str(e))
+
+
 def _scale(op, a):
     s = U.fsum_abs(a)
     if op in ("var", "nanvar", "moment"):
@@ -314,6 +326,8 @@ def case_reduce(ctx, inp):
     ax_arg = None if axis is None else (axis if isinstance(axis, int) else tuple(axis))
     x = da.from_array(a, chunks=chunks)
     kw = {}
+    if inp.get("dtype"):
+        kw["dtype"] = inp["dtype"]
     if op == "moment":
         kw["order"] = inp.get("order", 3)
 
@@ -324,10 +338,10 @@ def case_reduce(ctx, inp):
         kw["ddof"] = inp.get("ddof", 0)
 
         def ref():
-            return getattr(np, op)(a, axis=ax_arg, keepdims=kd, ddof=kw["ddof"])
+            return getattr(np, op)(a, axis=ax_arg, keepdims=kd, **kw)
     else:
         def ref():
-            return getattr(np, op)(a, axis=ax_arg, keepdims=kd)
+            return getattr(np, op)(a, axis=ax_arg, keepdims=kd, **kw)
     holder = {}
 
     def impl():
@@ -336,7 +350,7 @@ def case_reduce(ctx, inp):
         return U.sync_compute(r)
 
     got, exp = U.run_both(impl, ref)
-    exact = a.dtype.kind in "iub" and op in ("sum", "prod", "min", "max", "any", "all")
+    exact = a.dtype.kind in "iub" and op in ("sum", "prod", "min", "max", "any", "all") and not inp.get("dtype")
     if exp[0] == "raised":
         if got[0] != "raised":
             ctx.fail(f"{op}: NumPy raises {exp[1]} but dask returned a value", observed=str(got[1]))
@@ -345,15 +359,21 @@ def case_reduce(ctx, inp):
     if got[0] == "raised":
         ctx.fail(f"{op}: dask raised but NumPy returns a value: {got[1]}", observed=got[1], expected=np.asarray(exp[1]).tolist())
         return
-    if not U.same_values(got[1], exp[1], exact, _scale(op, a)):
+    if not U.same_values(got[1], exp[1], exact, _scale(op, a), _rtol(got[1], exp[1], a)):
         ctx.fail(f"{op} differs from NumPy", observed=np.asarray(got[1]).tolist(), expected=np.asarray(exp[1]).tolist())
+    if op != "moment":
+        _check_dtype(ctx, op, holder["r"], got[1], exp[1])
+    if a.dtype not in (np.int64, np.float64, np.bool_):
+        ctx.branch("dtype=" + str(a.dtype))
+    if inp.get("dtype"):
+        ctx.branch("dtype= argument")
     r = holder["r"]
     if tuple(r.shape) != np.asarray(exp[1]).shape:
         ctx.fail(f"{op}: lazy shape differs from NumPy's", observed=list(r.shape), expected=list(np.asarray(exp[1]).shape))
     # graph structure + Lean value model
     if op != "moment" or kw["order"] >= 2:
         depth, split = check_plan(ctx, op, r, [len(c) for c in chunks], axes, kd, se)
-        if op in LEAN_OPS and a.dtype.kind in "iu" and a.size <= 48:
+        if op in LEAN_OPS and a.dtype.kind in "iu" and a.size <= 48 and not inp.get("dtype"):
             m = lean_grid_reduce(ctx, Sym(op), a, chunks, axes, split, depth)
             if isinstance(m, str):
                 ctx.disagree(f"{op}: Lean tree model {m} but dask computed a value", m, np.asarray(got[1]).tolist())
@@ -402,6 +422,7 @@ def case_arg(ctx, inp):
         return
     if not U.same_values(got[1], exp[1], True):
         ctx.fail(f"{op} differs from NumPy (first occurrence expected)", observed=np.asarray(got[1]).tolist(), expected=np.asarray(exp[1]).tolist())
+    _check_dtype(ctx, op, holder["r"], got[1], exp[1])
     axes = norm_axes(axis, a.ndim)
     nb = [len(c) for c in chunks]
     depth, split = check_plan(ctx, op, holder["r"], nb, axes, kd, se)
@@ -442,8 +463,14 @@ def case_cum(ctx, inp):
     chunks = tuple(tuple(c) for c in inp["chunks"])
     op, axis, method = inp["op"], inp["axis"], inp["method"]
     x = da.from_array(a, chunks=chunks)
-    got, exp = U.run_both(lambda: U.sync_compute(getattr(da, op)(x, axis=axis, method=method)),
-                          lambda: getattr(np, op)(a, axis=axis))
+    kw = {"dtype": inp["dtype"]} if inp.get("dtype") else {}
+    holder = {}
+
+    def impl():
+        holder["r"] = getattr(da, op)(x, axis=axis, method=method, **kw)
+        return U.sync_compute(holder["r"])
+
+    got, exp = U.run_both(impl, lambda: getattr(np, op)(a, axis=axis, **kw))
     zero = any(0 in c for c in chunks)
     if exp[0] == "raised":
         if got[0] != "raised":
@@ -453,9 +480,14 @@ def case_cum(ctx, inp):
         sig = "cum:axis=None:zero-length-chunk:reshape" if (zero and axis is None and a.ndim > 1) else None
         ctx.fail(f"{op}[{method}]: dask raised but NumPy returns a value: {got[1]}", sig=sig, observed=got[1])
         return
-    exact = a.dtype.kind in "iub"
-    if not U.same_values(got[1], exp[1], exact, _scale("prod" if "prod" in op else "sum", a)):
+    exact = a.dtype.kind in "iub" and not kw
+    if not U.same_values(got[1], exp[1], exact, _scale("prod" if "prod" in op else "sum", a), _rtol(got[1], exp[1], a)):
         ctx.fail(f"{op}[{method}] differs from NumPy", observed=np.asarray(got[1]).tolist(), expected=np.asarray(exp[1]).tolist())
+    _check_dtype(ctx, f"{op}[{method}]", holder["r"], got[1], exp[1])
+    if tuple(holder["r"].shape) != np.asarray(exp[1]).shape:
+        ctx.fail(f"{op}[{method}]: lazy shape differs from NumPy's", observed=list(holder["r"].shape), expected=list(np.asarray(exp[1]).shape))
+    if kw:
+        ctx.branch("dtype= argument")
     if a.ndim == 1 and exact and op in ("cumsum", "cumprod") and axis is not None:
         blocks = [[int(v) for v in b] for _, _, b in U.blocks_c_order(a, chunks)]
         r = ctx.lean(Sym("seqscan" if method == "sequential" else "blelloch"), Sym("sum" if op == "cumsum" else "prod"), blocks)
@@ -509,6 +541,7 @@ def case_topk(ctx, inp):
     else:
         if not U.same_values(r, exp, True):
             ctx.fail("topk differs from sort+take", observed=r.tolist(), expected=exp.tolist())
+        _check_dtype(ctx, "topk", holder["r"], r, exp)
         if a.ndim == 1 and a.dtype.kind in "iu":
             nb = [len(chunks[0])]
             depth, split = check_plan(ctx, name, holder["r"], nb, (0,), True, se)
@@ -548,6 +581,7 @@ def case_quant(ctx, inp):
         return
     if not U.same_values(got[1], exp[1], False, U.fsum_abs(a)):
         ctx.fail(f"{op} differs from NumPy", observed=np.asarray(got[1]).tolist(), expected=np.asarray(exp[1]).tolist())
+    _check_dtype(ctx, op, None, got[1], exp[1])
     if any(len(chunks[ax]) > 1 for ax in norm_axes(axis, a.ndim)):
         ctx.branch("rechunk-to-single")
     if a.dtype.kind == "f" and np.isnan(a).any():
@@ -574,26 +608,84 @@ def _build_item(da, x, it):
     raise KeyError(k)
 
 
+def _ref_item(a, it):
+    """NumPy reference of a reduce / cum item (None when there is none)"""
+    k = it["kind"]
+    if k == "reduce":
+        ax = it["axis"]
+        ax = None if ax is None else (ax if isinstance(ax, int) else tuple(ax))
+        if it["op"] == "moment":
+            m = a.mean(axis=ax, keepdims=True)
+            return ((a - m) ** it.get("order", 2)).mean(axis=ax, keepdims=it["keepdims"])
+        kw = {"ddof": it.get("ddof", 0)} if it["op"] in ("var", "std", "nanvar", "nanstd") else {}
+        return getattr(np, it["op"])(a, axis=ax, keepdims=it["keepdims"], **kw)
+    if k == "cum":
+        return getattr(np, it["op"])(a, axis=it["axis"])
+    return None
+
+
 def case_joint(ctx, inp):
-    """Several different reductions of the SAME array computed in one graph: each must keep its own result
-    (distinct names/keys for distinct parameters)."""
+    """Several reductions computed in ONE graph: different parameters on the same array, the same parameters on a
+    second array of the same shape/chunks but other values, on the same values with another chunking, and chains
+    (a reduction of a reduction / of a scan).  Each must keep its own result (distinct names/keys)."""
     da = _da()
     a = dec_arr(inp["a"])
-    x = da.from_array(a, chunks=tuple(tuple(c) for c in inp["chunks"]))
+    chunks = tuple(tuple(c) for c in inp["chunks"])
+    x = da.from_array(a, chunks=chunks)
+    items = inp["items"]
     with warnings.catch_warnings():
         warnings.simplefilter("ignore")
-        arrs = [_build_item(da, x, it) for it in inp["items"]]
+        arrs = [_build_item(da, x, it) for it in items]
+        labels = [("x", it) for it in items]
+        refs = [None] * len(arrs)
+        if inp.get("variants"):
+            a2 = (a[(slice(None, None, -1),) * a.ndim] + (1 if a.dtype.kind in "iuf" else 0)).astype(a.dtype)
+            x2 = da.from_array(a2, chunks=chunks)
+            x3 = da.from_array(a, chunks=tuple(tuple(c) for c in inp["chunks2"]))
+            for nm, src, arr in (("other values", x2, a2), ("other chunks", x3, a)):
+                for it in items:
+                    arrs.append(_build_item(da, src, it))
+                    labels.append((nm, it))
+                    refs.append(_ref_item(arr, it) if nm == "other values" else None)
+            # chains: item j applied to the (keepdims) result of item i
+            for i, it1 in enumerate(items):
+                if it1["kind"] not in ("reduce", "cum") or it1.get("op") == "moment":
+                    continue
+                it1k = dict(it1, keepdims=True) if it1["kind"] == "reduce" else it1
+                mid = _build_item(da, x, it1k)
+                mid_ref = _ref_item(a, it1k)
+                for it2 in items[i:i + 2]:
+                    if it2["kind"] not in ("reduce", "cum") or it2.get("op") == "moment":
+                        continue
+                    arrs.append(_build_item(da, mid, it2))
+                    labels.append(("chain", [it1k, it2]))
+                    try:
+                        refs.append(_ref_item(np.asarray(mid_ref), it2))
+                    except Exception:   # noqa: BLE001
+                        refs.append(None)
         bad = U.joint_vs_solo(arrs)
-    for i in bad:
-        ctx.fail("a reduction computed together with others differs from the same reduction computed alone",
-                 observed={"item": inp["items"][i], "name": arrs[i].name,
-                           "same_name_as": [j for j, y in enumerate(arrs) if j != i and y.name == arrs[i].name]})
+        for i in bad:
+            ctx.fail("a reduction computed together with others differs from the same reduction computed alone",
+                     observed={"item": labels[i], "name": arrs[i].name,
+                               "same_name_as": [labels[j] for j, y in enumerate(arrs) if j != i and y.name == arrs[i].name]})
+        for i, (y, r) in enumerate(zip(arrs, refs)):
+            if r is None or i in bad:
+                continue
+            v = np.asarray(U.sync_compute(y))
+            r = np.asarray(r)
+            exact = a.dtype.kind in "iub" and all(t.get("op") in ("sum", "prod", "min", "max", "cumsum", "cumprod")
+                                                   for t in (labels[i][1] if isinstance(labels[i][1], list) else [labels[i][1]]))
+            sc = _scale("var", a) if labels[i][0] == "chain" else _scale(labels[i][1].get("op", "sum"), a)
+            if v.shape != r.shape or not U.same_values(v, r, exact, sc):
+                ctx.fail(f"joint/{labels[i][0]}: differs from NumPy", observed={"item": labels[i], "got": v.tolist()}, expected=r.tolist())
     names = {}
-    for it, y in zip(inp["items"], arrs):
+    for it, y in zip(labels, arrs):
         names.setdefault(y.name, []).append(it)
     if any(len(v) > 1 for v in names.values()):
         ctx.branch("identical items share a name")
-    ctx.branch(f"joint×{len(arrs)}")
+    if inp.get("variants"):
+        ctx.branch("variants+chains")
+    ctx.branch(f"joint×{min(len(arrs), 6)}" + ("+" if len(arrs) > 6 else ""))
 
 
 CASES = {"joint": case_joint, "plan": case_plan, "depth": case_depth, "blsched": case_blsched, "reduce": case_reduce,
@@ -629,6 +721,15 @@ def _data(rng, shape, kind):
         return U.rand_int_array(rng, shape, -2, 2)
     if kind == "bool":
         return U.rand_int_array(rng, shape, 0, 1).astype(bool)
+    if kind == "int32":
+        return U.rand_int_array(rng, shape, -2, 2).astype(np.int32)
+    if kind == "uint8":
+        return U.rand_int_array(rng, shape, 0, 2).astype(np.uint8)
+    if kind == "float32":
+        a = (U.rand_int_array(rng, shape, -40, 40) / 4.0).astype(np.float32)
+        if rng.random() < 0.3 and a.size:
+            a.ravel()[rng.randrange(a.size)] = np.nan
+        return a
     if kind == "float":
         return U.rand_float_array(rng, shape)
     if kind == "nan":
@@ -649,9 +750,9 @@ def gen_reduce(ctx, n):
         axes = norm_axes(axis, len(shape))
         r = rng.random()
         if r < 0.45:
-            op, kind = rng.choice(PLAIN), rng.choice(["int", "int", "float", "nan", "inf", "bool"])
+            op, kind = rng.choice(PLAIN), rng.choice(["int", "int", "float", "nan", "inf", "bool", "int32", "uint8", "float32"])
         elif r < 0.8:
-            op, kind = rng.choice(NANOPS), rng.choice(["nan", "nan", "float", "int"])
+            op, kind = rng.choice(NANOPS), rng.choice(["nan", "nan", "float", "int", "float32"])
         else:
             op, kind = "moment", rng.choice(["int", "float"])
         if kind == "inf" and op in ("var", "std", "prod"):
@@ -664,6 +765,8 @@ def gen_reduce(ctx, n):
             inp["order"] = rng.choice([2, 3, 4])
         if op in ("var", "std", "nanvar", "nanstd"):
             inp["ddof"] = rng.choice([0, 0, 1])
+        if op in ("sum", "prod", "mean", "var", "std", "nansum", "nanprod", "nanmean", "nanvar", "nanstd") and rng.random() < 0.15:
+            inp["dtype"] = rng.choice(["float64", "float32"] + (["int64", "int32"] if kind in ("int", "int32", "uint8", "bool") and op in ("sum", "prod", "nansum", "nanprod") else []))
         yield "reduce", inp
 
 
@@ -674,7 +777,7 @@ def gen_arg(ctx, n):
         chunks = U.rand_chunks(rng, shape, zero_p=0.2)
         axis = rng.choice([None] + list(range(len(shape))))
         op = rng.choice(["argmin", "argmax", "argmin", "argmax", "nanargmin", "nanargmax"])
-        kind = rng.choice(["int", "int", "float", "nan"]) if op.startswith("arg") else rng.choice(["nan", "float"])
+        kind = rng.choice(["int", "int", "float", "nan", "int32", "uint8", "float32", "bool"]) if op.startswith("arg") else rng.choice(["nan", "float", "float32"])
         a = _data(rng, shape, kind)
         if kind == "int":
             a = U.rand_int_array(rng, shape, 0, 2)
@@ -688,10 +791,13 @@ def gen_cum(ctx, n):
         shape = U.rand_shape(rng, 2, 6) if rng.random() < 0.5 else (rng.randint(1, 12),)
         chunks = U.rand_chunks(rng, shape, zero_p=0.25)
         op = rng.choice(["cumsum", "cumprod", "cumsum", "nancumsum", "nancumprod"])
-        kind = rng.choice(["int", "int", "float"]) if not op.startswith("nan") else rng.choice(["nan", "float"])
+        kind = rng.choice(["int", "int", "float", "int32", "uint8", "float32", "bool"]) if not op.startswith("nan") else rng.choice(["nan", "float", "float32"])
         axis = rng.choice(list(range(len(shape))) + ([None] if not any(0 in c for c in chunks) else []))
-        yield "cum", {"a": enc_arr(_data(rng, shape, kind)), "chunks": [list(c) for c in chunks], "op": op,
-                      "axis": axis, "method": rng.choice(["sequential", "blelloch"])}
+        inp = {"a": enc_arr(_data(rng, shape, kind)), "chunks": [list(c) for c in chunks], "op": op,
+               "axis": axis, "method": rng.choice(["sequential", "blelloch"])}
+        if rng.random() < 0.2:
+            inp["dtype"] = rng.choice(["float64", "float32", "int64"] if kind in ("int", "int32", "uint8", "bool") else ["float64", "float32"])
+        yield "cum", inp
 
 
 def gen_topk(ctx, n):
@@ -704,6 +810,10 @@ def gen_topk(ctx, n):
         k = rng.choice([1, ln, rng.randint(1, ln), max(chunks[axis]), min(ln, max(chunks[axis]) + 1)])
         k = max(1, min(k, ln)) * rng.choice([1, -1])
         a = U.rand_int_array(rng, shape, -5, 5) if rng.random() < 0.7 else U.rand_float_array(rng, shape)
+        if rng.random() < 0.25:
+            a = _data(rng, shape, rng.choice(["int32", "uint8", "float32"]))
+            if a.dtype.kind == "f":
+                a = np.nan_to_num(a)
         yield "topk", {"a": enc_arr(a), "chunks": [list(c) for c in chunks], "k": k, "axis": axis,
                        "split_every": rng.choice([None, 2, 3]), "arg": rng.random() < 0.5}
 
@@ -801,7 +911,8 @@ def gen_joint(ctx, n):
                 it = {"kind": "topk", "k": rng.randint(1, shape[ax]) * rng.choice([1, -1]), "axis": ax,
                       "split_every": rng.choice([None, 2]), "arg": rng.random() < 0.5}
             items.append(it)
-        yield "joint", {"a": enc_arr(a), "chunks": [list(c) for c in chunks], "items": items}
+        yield "joint", {"a": enc_arr(a), "chunks": [list(c) for c in chunks], "items": items, "variants": rng.random() < 0.6,
+                        "chunks2": [list(c) for c in U.rand_chunks(rng, shape)]}
 
 
 def _exhaustive_nd(ctx):
